@@ -1,13 +1,13 @@
 CONSTANTS
   DomSize = 0
   Blocks = 1
-  MaxL = 4
+  MaxL = 5
   MaxStmts = 3
   MaxCmts = 4
   Spices = {"frag", "glue", "look"}
   Deviations = {}
   KnownDevs = {"BlankCommentPadded", "KeywordSwallowsComment"}
-  EmitEvery = 50
+  EmitEvery = 40
   EmitPhase = 0
 INIT PlaceInit
 NEXT PlaceNext
